@@ -278,6 +278,45 @@ func Verif_C17_attach() {
 //verif:split 6
 func Verif_C18_vt_grid_sync() { vfVTStep(true) }
 
+// The init lemma of the sync invariant: a terminal that is already active when it is attached (the order the
+// repository's own tests use: SetState(StateActive), then AttachTo) shows its viewport on the console it is attached
+// to, whatever the console displayed before; an inactive terminal leaves the console alone.
+func Verif_C18_attach_sync() {
+	w := vfGeom([]uint32{1, 2, 3}, []uint32{1, 2, 3, 4}, "width")
+	h := vfGeom([]uint32{1, 2}, []uint32{1, 2, 3}, "height")
+	s := vfGeom([]uint32{0, 1}, []uint32{0, 1, 2}, "scrollback")
+	g := &vfGrid{w: w, h: h}
+	var before [vfMaxW * vfMaxH][3]uint8
+	for i := 0; i < int(w*h); i++ {
+		g.cells[i] = [3]uint8{zzverif.U8("cons"), zzverif.U8("cons"), zzverif.U8("cons")}
+		before[i] = g.cells[i]
+	}
+	t := NewVT(2, s)
+	active := zzverif.Choice("active", 2) == 1
+	if active {
+		t.SetState(StateActive)
+	}
+	// KF-C18-1: AttachTo never paints; SetState only paints on a state *change* with a console attached, so a terminal
+	// activated before it is attached leaves the console's previous contents on screen.
+	zzverif.Known("KF-C18-1", active)
+	t.AttachTo(g)
+	if zzverif.Choice("then-write", 2) == 1 {
+		t.WriteByte(zzverif.U8("byte"))
+	}
+	zzverif.Reach("attached")
+	for cy := uint32(0); cy < h; cy++ {
+		for cx := uint32(0); cx < w; cx++ {
+			i := cy*w + cx
+			if t.state == StateActive {
+				off := ((t.viewportY+cy)*w + cx) * 3
+				zzverif.Assert(zzverif.And(g.cells[i][0] == t.data[off], zzverif.And(g.cells[i][1] == t.data[off+1], g.cells[i][2] == t.data[off+2])), "active terminal: the console shows exactly the viewport after attaching")
+			} else {
+				zzverif.Assert(g.cells[i] == before[i], "inactive terminal: the console is not touched")
+			}
+		}
+	}
+}
+
 // ---------- C18 with the shipped text-mode console ----------
 
 // vfVTVgaStep: the same step lemma with the real VgaTextConsole as the attached console.
